@@ -211,11 +211,12 @@ class Shadow:
         self.norm = norm
         self.zeroS = False       # singular values that are exactly zero may be stored (after enlarge_chi)
         self.parent = None       # for extracted segments: (parent psi, first, last)
+        self.canon = True        # canonical form holds (no truncation since the last canonical_form)
         self._cache = None
 
     def copy(self):
         c = Shadow(self.bc, self.T, self.elem, self.blocks, self.norm)
-        c.zeroS, c.parent = self.zeroS, self.parent
+        c.zeroS, c.parent, c.canon = self.zeroS, self.parent, self.canon
         return c
 
     @property
